@@ -26,6 +26,7 @@ structure Inv0 (g : Hdr H R) (s : Store H R) : Prop where
   main_ok : ∀ n, g.number ≤ n → n ≤ s.cur → ∃ e, s.main n = some e.hdr.hash ∧ s.index e.hdr.hash = some e ∧ e.hdr.number = n
   main_link : ∀ n k e, g.number ≤ n → n + 1 ≤ s.cur → s.main (n + 1) = some k → s.index k = some e →
     s.main n = some e.hdr.parent
+  main_low : ∀ n, n < g.number → s.main n = none
 
 /-- `x` is (the relevant part of) a stored header. -/
 def StoredHdr (s : Store H R) (x : Hdr H R) : Prop :=
@@ -227,7 +228,7 @@ theorem writeMain_inv0 {g : Hdr H R} {s : Store H R} (inv : Inv0 g s) (si' : Nat
     intro n a b; rw [t2]; omega
   have outrange : ∀ n, n < si' → ¬ (si' ≤ n ∧ n < si' + (new'.hash :: acc').length) := by
     intro n a; omega
-  refine ⟨⟨?_, ?_, ?_, ?_, ?_, ?_, ?_, ?_⟩, hcur, ?_⟩
+  refine ⟨⟨?_, ?_, ?_, ?_, ?_, ?_, ?_, ?_, ?_⟩, hcur, ?_⟩
   · rw [hidx]; exact inv.gen
   · rw [hidx]; exact inv.key
   · rw [hidx]; exact inv.low
@@ -277,6 +278,8 @@ theorem writeMain_inv0 {g : Hdr H R} {s : Store H R} (inv : Inv0 g s) (si' : Nat
         obtain ⟨e', e1, _, e3⟩ := hp _ _ c
         rw [e1] at d; cases d
         rw [hk', e3 (n - si') k' (by omega) hk']
+  · intro n hn
+    rw [hmain, if_neg (outrange n (by omega))]; exact inv.main_low n hn
   · rw [hmain, if_pos (inrange _ t1 (Nat.le_refl _))]; exact t3
 
 theorem head_onMain {g : Hdr H R} {s : Store H R} (inv : Inv0 g s) {ce : Entry H R} (hc : currentHeader s = some ce) :
@@ -354,7 +357,7 @@ theorem setIndex_inv0 {g : Hdr H R} {s : Store H R} (inv : Inv0 g s) (h : Hdr H 
     · subst hkk; rw [setIndex_index_eq] at hk; cases hk; exact Or.inl ⟨rfl, rfl⟩
     · rw [setIndex_index_ne _ _ _ _ hkk] at hk; exact Or.inr ⟨hkk, hk⟩
   obtain ⟨ge, hge, hgn, hgt⟩ := inv.gen
-  refine ⟨⟨ge, old _ _ hge, hgn, hgt⟩, ?_, ?_, ?_, inv.cur_ge, inv.main_g, ?_, ?_⟩
+  refine ⟨⟨ge, old _ _ hge, hgn, hgt⟩, ?_, ?_, ?_, inv.cur_ge, inv.main_g, ?_, ?_, inv.main_low⟩
   · intro k e hk
     rcases cases k e hk with ⟨rfl, rfl⟩ | ⟨_, ho⟩
     · rfl
@@ -394,7 +397,7 @@ theorem appendMain_inv0 {g : Hdr H R} {s : Store H R} (inv : Inv0 g s) (ce he : 
   have hc : (appendMain s he.hdr.number he.hdr.hash).cur = s.cur + 1 := by simp [appendMain, hn]
   have hi : (appendMain s he.hdr.number he.hdr.hash).index = s.index := rfl
   have hg := inv.cur_ge
-  refine ⟨⟨?_, ?_, ?_, ?_, ?_, ?_, ?_, ?_⟩, ?_⟩
+  refine ⟨⟨?_, ?_, ?_, ?_, ?_, ?_, ?_, ?_, ?_⟩, ?_⟩
   · rw [hi]; exact inv.gen
   · rw [hi]; exact inv.key
   · rw [hi]; exact inv.low
@@ -425,6 +428,8 @@ theorem appendMain_inv0 {g : Hdr H R} {s : Store H R} (inv : Inv0 g s) (ce he : 
       rw [e1, hpar]
     · rw [if_neg hh] at c; rw [if_neg (by omega)]
       exact inv.main_link n k e a (by omega) c d
+  · intro n hn
+    rw [hmain, if_neg (by omega)]; exact inv.main_low n hn
   · have : ¬ (s.cur + 1 > (appendMain s he.hdr.number he.hdr.hash).cur) := by rw [hc]; omega
     simp [currentHeader, headerByHeight, hc, hmain, hi, hst]
 
@@ -442,7 +447,7 @@ theorem currentHeader_setIndex {g : Hdr H R} {s : Store H R} (inv : Inv0 g s) (k
   rw [h1, h2]
 
 theorem init_inv0 (g : Hdr H R) : Inv0 g (init g) := by
-  refine ⟨⟨⟨g, g.difficulty⟩, by simp [init], rfl, rfl⟩, ?_, ?_, ?_, ?_, ?_, ?_, ?_⟩
+  refine ⟨⟨⟨g, g.difficulty⟩, by simp [init], rfl, rfl⟩, ?_, ?_, ?_, ?_, ?_, ?_, ?_, ?_⟩
   · intro k e h; simp only [init] at h; split at h
     · rename_i hk; cases h; exact hk.symm
     · cases h
@@ -459,6 +464,9 @@ theorem init_inv0 (g : Hdr H R) : Inv0 g (init g) := by
     subst this
     exact ⟨⟨g, g.difficulty⟩, by simp [init], by simp [init], rfl⟩
   · intro n k e h1 h2; simp only [init] at h2; omega
+  · intro n hn
+    have : ¬ n = g.number := by omega
+    simp [init, this]
 
 theorem init_heaviest (g : Hdr H R) : Heaviest (init g) := by
   refine ⟨⟨g, g.difficulty⟩, by simp [currentHeader, headerByHeight, init], ?_⟩
